@@ -72,7 +72,8 @@ pub fn generate(ctx: &mut Ctx) {
     for i in 0..n {
         let mut rng = ctx.rng("pairs", i);
         let mut o = gen::Opts::new(rng.chance(1, 2));
-        o.max_segs = 8;
+        o.max_segs = if rng.chance(1, 8) { 30 } else { 8 };
+        o.long = rng.chance(1, 10);
         o.bad_pct = rng.chance(1, 5);
         let hs = rng.chance(1, 2);
         let ha = rng.chance(1, 2);
